@@ -180,6 +180,82 @@ func init() {
 			}
 			offs = append(offs, got)
 		}
+		// retry loop of SendAndReceive: number of tries and how a timeout is recognised
+		{
+			f := parse("internal/streams/dns/dns_client_connection.go")
+			fd := findFunc(f, "ClientDnsConnection", "SendAndReceive")
+			tries, test := int64(-1), -1
+			if fd != nil {
+				ast.Inspect(fd.Body, func(x ast.Node) bool {
+					fs, ok := x.(*ast.ForStmt)
+					if !ok {
+						return true
+					}
+					if c, ok := fs.Cond.(*ast.BinaryExpr); ok && c.Op == token.LEQ && c07Sel(c.X) == "i" {
+						if v := evalExpr(c.Y, env{}); v != nil {
+							tries, _ = constant.Int64Val(constant.ToInt(v))
+						}
+					}
+					ast.Inspect(fs.Body, func(y ast.Node) bool {
+						is, ok := y.(*ast.IfStmt)
+						if !ok || is.Init == nil {
+							return true
+						}
+						as, ok := is.Init.(*ast.AssignStmt)
+						if !ok || len(as.Rhs) != 1 || c07Sel(as.Rhs[0].(ast.Expr)) == "" {
+							return true
+						}
+						if ce, ok := as.Rhs[0].(*ast.CallExpr); !ok || c07Sel(ce.Fun) != "dc.Query" {
+							return true
+						}
+						switch c07Sel(is.Cond) {
+						case "err==smux.ErrTimeout":
+							test = 0
+						case "isTimeout(err)":
+							test = 1
+						}
+						return false
+					})
+					return false
+				})
+			}
+			if test == 1 {
+				// the helper must look through the wrapping and accept network timeouts
+				h := findFunc(f, "", "isTimeout")
+				okCause, okNet := false, false
+				if h != nil {
+					ast.Inspect(h.Body, func(x ast.Node) bool {
+						if se, ok := x.(*ast.SelectorExpr); ok {
+							if c07Sel(se) == "errors.Cause" {
+								okCause = true
+							}
+							if se.Sel.Name == "Timeout" {
+								okNet = true
+							}
+						}
+						return true
+					})
+				}
+				if !okCause || !okNet {
+					fail("C07: isTimeout does not have the expected shape (errors.Cause + net.Error Timeout())")
+				}
+			}
+			// QueryWithData wraps the communicator's error
+			wraps := false
+			if q := findFunc(f, "ClientDnsConnection", "QueryWithData"); q != nil {
+				ast.Inspect(q.Body, func(x ast.Node) bool {
+					if r, ok := x.(*ast.ReturnStmt); ok && len(r.Results) == 2 && c07Sel(r.Results[1]) == "errors.WithStack(err)" {
+						wraps = true
+					}
+					return true
+				})
+			}
+			if tries < 0 || test < 0 || !wraps {
+				fail("C07: SendAndReceive retry loop / timeout test / QueryWithData wrapping not in a recognised shape (tries %d, test %d, wraps %v)", tries, test, wraps)
+			}
+			fmt.Fprintf(b, "/-- ClientDnsConnection.SendAndReceive: `for i := 1; i <= tries; i++` -/\ndef c07Tries : Nat := %d\n", tries)
+			fmt.Fprintf(b, "/-- how SendAndReceive recognises a timed-out Query (whose error QueryWithData has wrapped):\n    0 = `err == smux.ErrTimeout` (identity with the sentinel: never true for a wrapped error), 1 = `isTimeout(err)` (cause is a net timeout or the sentinel) -/\ndef c07TimeoutTest : Nat := %d\n", test)
+		}
 		if len(offs) == 2 {
 			if offs[0] != offs[1] {
 				fail("C07: client and server acknowledge different offsets (%s vs %s)", offs[0], offs[1])
